@@ -512,6 +512,11 @@ def corr_scripts(ctx, scripts, slice_name, project=None, batch=40000, max_report
             _, serr, src = run_c(ctx.corr, small)
             disagreements.append({"slice": slice_name, "crash": True, "harness_rc": src, "stderr": serr[-2500:],
                                   "sanitizer": san_reports(serr), "script": small})
+            # a report that comes only at exit (a leak) leaves the script's answers complete: hand them to the property oracle too,
+            # so that the property's own verdict on this script is not hidden behind the memory report
+            bo, _, _ = run_c(ctx.corr, bad)
+            if len(bo) == len(bad):
+                all_c.append((bad, bo))
             chunk = [sc for sc in chunk if sc is not bad]
             lines = [l for sc in chunk for l in sc]
             c_out, l_out, c_err, c_rc = run_pair(ctx.corr, lines)
